@@ -1,3 +1,4 @@
+import WmModel.Props.C05Prod
 import WmModel.Props.C05Reg
 import WmModel.Props.C04Exit
 import WmModel.Props.C04
@@ -13,3 +14,6 @@ import WmModel.Props.C11
 #print axioms Wm.GcSub.acked_exit_means_delivered_and_acked
 #print axioms Wm.GcSub.unacked_exit_means_closing
 #print axioms Wm.GcSub.sender_exits_once
+#print axioms Wm.GcProd.publications_are_the_log
+#print axioms Wm.GcProd.exactly_once_when_all_acked
+#print axioms Wm.GcProd.prod_witness
